@@ -8,6 +8,7 @@ pub mod c16;
 pub mod c17;
 pub mod c18;
 pub mod c19;
+pub mod c20;
 pub mod common;
 
 pub fn by_id(id: &str) -> Option<Box<dyn Property>> {
@@ -20,6 +21,7 @@ pub fn by_id(id: &str) -> Option<Box<dyn Property>> {
         "C17" => Box::new(c17::C17),
         "C18" => Box::new(c18::C18),
         "C19" => Box::new(c19::C19),
+        "C20" => Box::new(c20::C20),
         _ => return None,
     })
 }
